@@ -453,6 +453,11 @@ double cmb_random_std_gamma(const double shape)
 {
     cmb_assert_release(shape > 0.0);
 
+    if (shape < 1.0) {
+        /* The Marsaglia-Tsang kernel needs shape >= 1, boost and scale back */
+        return cmb_random_std_gamma(shape + 1.0) * pow(cmb_random(), 1.0 / shape);
+    }
+
     static CMB_THREAD_LOCAL double a_prev = 0.0;
     static CMB_THREAD_LOCAL double c = 0.0;
     static CMB_THREAD_LOCAL double d = 0.0;
